@@ -74,6 +74,7 @@ def run(ctx):
                    'secured under the previous token can no longer be verified' % ', '.join(n for n, t in remote_slots or keyish), loc='%s:%s' % (adt['loc']['f'], adt['loc']['l']))
         r.floor(rule, 'key_fields', len(keyish), 2)
     nonce_setters_replace(ctx)
+    renew_serialised(ctx)
 
 
 def nonce_setters_replace(ctx, rule='nonce-setters-replace'):
@@ -106,3 +107,77 @@ def nonce_setters_replace(ctx, rule='nonce-setters-replace'):
                    % (fn, fld[1:], names or 'assignment'), loc=b.loc)
     r.count('nonce_setters', n)
     r.floor(rule, 'nonce_setters', n, 2)
+
+
+def renew_serialised(ctx, rule='renew-serialised'):
+    """client side: a renewal is one exchange - begin_issue_or_renew_secure_channel stores the client nonce the keys will be
+    derived from, end_issue_or_renew_secure_channel derives them from that nonce and the server's answer.  AsyncSecureChannel::send
+    may run concurrently, so the pair must sit inside one critical section of issue_channel_lock: the guard is taken before
+    `begin` and not released on any path from `begin` to `end` (a second renewal starting in between overwrites the nonce and
+    the keys derived afterwards are ones the server never held)."""
+    r, db = ctx.r, ctx.db
+    bs = db.find_bodies(r'^client::transport::channel::AsyncSecureChannel::send::\{closure#0\}$')
+    if not bs:
+        r.lost(rule, 'send', 'AsyncSecureChannel::send coroutine not found'); return
+    b = bs[0]; F = ctx.facts(b)
+    begins = [c for c in b.calls() if c.callee.endswith('SecureChannelState::begin_issue_or_renew_secure_channel')]
+    ends = [c for c in b.calls() if c.callee.endswith('SecureChannelState::end_issue_or_renew_secure_channel')]
+    locks = [c for c in b.calls() if re.search(r'Mutex::lock$', c.callee) and fmt_sym(b, F.sym_operand(c.args[0])).endswith('.issue_channel_lock')]
+    if len(begins) != 1 or len(ends) != 1 or len(locks) != 1:
+        r.lost(rule, 'send:calls', 'expected one issue_channel_lock.lock(), one begin_ and one end_issue_or_renew_secure_channel in send (found %d/%d/%d)' % (len(locks), len(begins), len(ends))); return
+    B, E, L = begins[0], ends[0], locks[0]
+    # where the guard is kept: the place assigned from the awaited lock future
+    gplaces = []
+    for bi, blk in enumerate(b.blocks):
+        if blk['c']:
+            continue
+        for si, st in enumerate(blk['s']):
+            if st[0] == '=' and st[2][0] == 'use' and st[2][1][0] in ('mv', 'cp'):
+                v = fmt_sym(b, F.sym_operand(st[2][1]))
+                if 'Mutex::lock(&' in v and 'issue_channel_lock' in v and 'poll' in v and b.dominates(L.bb, bi):
+                    gplaces.append((st[1][0], tuple(st[1][1])))
+    gplaces = set(gplaces)
+    if not gplaces:
+        r.lost(rule, 'send:guard', 'the place holding the issue_channel_lock guard was not found'); return
+    rel = set()
+    for bi, blk in enumerate(b.blocks):
+        if blk['c']:
+            continue
+        t = blk['t']
+        if t[0] == 'drop' and (t[1][0], tuple(t[1][1])) in gplaces:
+            rel.add(bi)
+    for c in b.calls():
+        if c.callee.endswith('mem::drop') and c.args and c.args[0][0] in ('mv', 'cp') and ((c.args[0][1][0], tuple(c.args[0][1][1])) in gplaces or
+                ('Mutex::lock(&' in fmt_sym(b, F.sym_operand(c.args[0])) and 'issue_channel_lock' in fmt_sym(b, F.sym_operand(c.args[0])))):
+            rel.add(c.bb)
+    r.count('guard_release_points', len(rel))
+    if not rel:
+        r.lost(rule, 'send:release', 'no release of the issue_channel_lock guard found'); return
+    if b.dominates(L.bb, B.bb) and any(b.dominates(bi, B.bb) for bi, blk in enumerate(b.blocks) if not blk['c'] and any(
+            st[0] == '=' and (st[1][0], tuple(st[1][1])) in gplaces for st in blk['s'])):
+        r.ok(rule, 'send:lock-before-begin', 'the renewal request is created only after issue_channel_lock was acquired', loc=B.loc)
+    else:
+        r.fail(rule, 'send:lock-before-begin', 'begin_issue_or_renew_secure_channel can run without issue_channel_lock being held', loc=B.loc)
+    # from begin, walk without passing `end`: no release may be met
+    seen = set(); work = [B.target] if B.target is not None else []
+    hit = None
+    while work:
+        x = work.pop()
+        if x in seen or b.is_cleanup(x):
+            continue
+        seen.add(x)
+        if x == E.bb:
+            continue
+        if x in rel:
+            # a release before end: is end still reachable from here?
+            if E.bb in b.reachable_blocks(x):
+                hit = x; break
+            continue
+        work.extend(b.succ(x))
+    if hit is not None:
+        t = b.term(hit)
+        where = '%s:%s' % (t[6]['f'], t[6]['l']) if t[0] == 'call' else B.loc
+        r.fail(rule, 'send:held-until-end', 'issue_channel_lock is released between begin_ and end_issue_or_renew_secure_channel: a concurrent send() starts a second renewal, '
+               'overwrites the client nonce, and the keys derived from the first answer are ones the server never held (its messages are then rejected)', loc=where)
+    else:
+        r.ok(rule, 'send:held-until-end', 'the guard taken before begin_issue_or_renew_secure_channel is not released on any path to end_issue_or_renew_secure_channel', loc=E.loc)
